@@ -836,10 +836,12 @@ func (s *BaseNodeService) processMessage(message storage.Message) (*types.Operat
 		}
 	}
 
+	simYield("msg.beforeDo")
 	resp, fsmDump, err := fsmInstance.Do(fsm.Event(message.Event), fsmReq)
 	if err != nil {
 		return nil, fmt.Errorf("failed to Do operation in FSM: %w", err)
 	}
+	simYield("msg.afterDo")
 
 	s.Logger.Log("message %s done successfully from %s", message.Event, message.SenderAddr)
 
@@ -934,6 +936,7 @@ func (s *BaseNodeService) processMessage(message storage.Message) (*types.Operat
 		}
 	}
 
+	simYield("msg.beforeSave")
 	if err := s.fsmService.SaveFSM(message.DkgRoundID, fsmDump); err != nil {
 		return nil, fmt.Errorf("failed to SaveFSM: %w", err)
 	}
